@@ -604,7 +604,7 @@ func (w *c29World) step() {
 func TestC29_IndexHistories(t *testing.T) {
 	c29Setup()
 	realReader := rand.Reader
-	vk.Check(t, 3000, func(rt *rapid.T) {
+	vk.Check(t, 4000, func(rt *rapid.T) {
 		rnd := &c29Rand{rt: rt, real: realReader, k: rapid.Uint32Range(3, 6).Draw(rt, "alphabet")}
 		rand.Reader = rnd
 		defer func() { rand.Reader = realReader }()
